@@ -67,6 +67,37 @@ def reply_frame(c: dict, gwy_id: str, *, code: str | None = None, verb: str | No
     return f"{v} --- {src or c['dst']} {dst or gwy_id} --:------ {code or c['code']} {len(pl) // 2:03d} {pl}"
 
 
+_OVERHEARD: list[str] = []
+
+
+def overheard_pool() -> list[str]:
+    """Frames of third parties for the 'arbitrary packets received in every state' part: one corpus frame per (verb, code, length)
+    group with every device number moved to 200000..259999 - so none of them can be an echo of, or a reply to, a command of the
+    table (whose devices all have numbers below 200000) - and the broadcast / null addresses kept."""
+    if not _OVERHEARD:
+        import re
+
+        from vf.gen import mutate as M
+
+        seen: set[tuple] = set()
+        for ln in M.corpus_pkt_lines():
+            fr = ln[4:]
+            if len(fr) < 48:
+                continue
+            k = (fr[:2], fr[37:41], fr[42:45])
+            if k in seen:
+                continue
+            seen.add(k)
+
+            def remap(m: Any) -> str:
+                if m.group(0) in ("63:262142", "--:------"):
+                    return m.group(0)
+                return f"{m.group(1)}:{200000 + int(m.group(2)) % 60000:06d}"
+
+            _OVERHEARD.append(fr[:7] + re.sub(r"(\d\d):(\d{6})", remap, fr[7:36]) + fr[36:])
+    return _OVERHEARD
+
+
 NEAR_KINDS = ("near-code", "near-verb", "near-src", "near-ctx", "near-ctx-zero", "near-dst", "other-gwy-echo", "unrelated")
 
 
@@ -281,6 +312,7 @@ class Rig:
         from ramses_tx import exceptions as exc
         from ramses_tx.const import Priority
         from ramses_tx.command import Command
+        from ramses_tx.packet import Packet
         from ramses_tx.protocol import PortProtocol
         from ramses_tx.typing import QosParams
 
@@ -377,6 +409,14 @@ class Rig:
                     if fr == echo_frame(c2, self.gwy_id):
                         lbls.add("echo-of:" + cmd_frame(c2))
                 self.deliver_at(fo["t"], fo.get("hops", 0), fr, lbls)
+        for ov in case.get("overheard", []):
+            # third-party traffic: only what a transport could hand over (a frame that does not make a Packet is dropped there)
+            try:
+                Packet.from_port(vclock.VDT.now(), f"000 {ov['frame']}")
+            except (exc.PacketInvalid, ValueError):
+                self.events.append((loop.time(), self.tick(), "overheard-frame-not-a-packet", ov["frame"]))
+                continue
+            self.deliver_at(ov["t"], ov.get("hops", 0), ov["frame"], {"overheard"})
         for fa in case.get("faults", []):
             k = fa["kind"]
             if k == "lost":
